@@ -274,6 +274,13 @@ def _simplify(e: ast.AST) -> ast.AST:
     return _Simplify().visit(e)
 
 
+def _is_const_text(t: str) -> bool:
+    try:
+        return isinstance(ast.parse(t, mode="eval").body, ast.Constant)
+    except SyntaxError:
+        return False
+
+
 class _ReadBack(ast.NodeTransformer):
     """container[key] -> the value stored under that key earlier on the same path"""
 
@@ -444,7 +451,9 @@ class Executor:
         ef.loops = st.loops
         ef.guards = st.guards
         if st.items and (ef.kind != "call" or ef.method in MUTATORS):
-            for k in [k for k in st.items if k[0] == ef.recv]:
+            # a store under another key leaves the remembered items alone; any other mutation of the container forgets them
+            only = txt(ef.args[0]) if ef.kind == "setitem" and ef.args and isinstance(ef.args[0], ast.Constant) else None
+            for k in [k for k in st.items if k[0] == ef.recv and (only is None or k[1] == only or not _is_const_text(k[1]))]:
                 del st.items[k]
         st.effects.append(ef)
         st.events.append(("effect", len(st.effects) - 1))
